@@ -17,6 +17,8 @@ import Driver.SemB
 import Driver.SemC
 import Driver.SemCF
 import Driver.SemK
+import Driver.SemAO
+import Driver.SemOR
 import Driver.SemP
 import Driver.Ex
 import Driver.TG
@@ -233,6 +235,8 @@ def handle (line : String) : String :=
   | "semc" :: _ => DSemC.handle (restOf line)
   | "semcf" :: _ => DSemCF.handle (restOf line)
   | "semk" :: _ => DSemK.handle (restOf line)
+  | "semao" :: _ => DSemAO.handle (restOf line)
+  | "semor" :: _ => DSemOR.handle (restOf line)
   | "semp" :: _ => DSemP.handle (restOf line)
   | "ex" :: _ => DEx.handle line
   | "extext" :: r => DExText.handle (r.headD "")
